@@ -11,7 +11,9 @@ Inductive nkind :=
 | KGroupAgg (aggr : string)
 | KPidAgg (aggr : string)
 | KTimeConv (num : Z) (den : positive)
-| KGrouping.
+| KGrouping
+(* array-level rule of the form  join(fk, pk, tgt, dflt)  or  join(...) ==/!= other  (cmp = Some (negated?, other)) *)
+| KJoin (fk pk tgt : string) (dflt : val) (cmp : option (bool * string)).
 
 Record dnode := { d_name : string; d_args : list string; d_params : list string; d_kind : nkind }.
 
